@@ -573,7 +573,89 @@ func init() {
 		}
 		return args, np
 	})
+	// [status; cache-control; expires; content-length; body]: LookupWellKnown against a stub transport
+	RegisterImpl("C18.wellknown", func(args [][]byte) ([][]byte, []byte) {
+		old := http.DefaultTransport
+		defer func() { http.DefaultTransport = old }()
+		http.DefaultTransport = c18RT(func(req *http.Request) (*http.Response, error) {
+			st := 200
+			fmt.Sscanf(string(args[0]), "%d", &st)
+			h := http.Header{}
+			if len(args[1]) > 0 {
+				h.Set("Cache-Control", string(args[1]))
+			}
+			if len(args[2]) > 0 {
+				h.Set("Expires", string(args[2]))
+			}
+			if len(args[3]) > 0 {
+				h.Set("Content-Length", string(args[3]))
+			}
+			return &http.Response{StatusCode: st, Header: h, Body: io.NopCloser(bytes.NewReader(args[4])), Request: req, ContentLength: -1}, nil
+		})
+		ctx, cancel := context.WithTimeout(context.Background(), 2*time.Second)
+		defer cancel()
+		_, _ = fclient.LookupWellKnown(ctx, "wk.example")
+		return args, np
+	})
+	// [make_join json; send_join json]: PerformJoin against a scripted remote
+	RegisterImpl("C18.performjoin", func(args [][]byte) ([][]byte, []byte) {
+		uid, _ := spec.NewUserID("@me:local.example", true)
+		rid, _ := spec.NewRoomID("!room:remote.example")
+		_, _ = gmsl.PerformJoin(context.Background(), &c18JoinClient{mj: args[0], sj: args[1]}, gmsl.PerformJoinInput{
+			UserID: uid, RoomID: rid, ServerName: "remote.example", Content: map[string]interface{}{},
+			PrivateKey: sk, KeyID: "ed25519:1", KeyRing: &gmsl.KeyRing{KeyDatabase: c18KeyDB{}},
+			EventProvider: func(rv gmsl.RoomVersion, ids []string) ([]gmsl.PDU, error) { return nil, nil },
+			UserIDQuerier: c18UserIDForSender,
+			GetOrCreateSenderID: func(ctx context.Context, userID spec.UserID, roomID spec.RoomID, roomVersion string) (spec.SenderID, ed25519.PrivateKey, error) {
+				return spec.SenderID(userID.String()), sk, nil
+			},
+			StoreSenderIDFromPublicID: func(ctx context.Context, senderID spec.SenderID, userID string, id spec.RoomID) error { return nil },
+		})
+		return args, np
+	})
 	RegisterProp("C18", genC18)
+}
+
+type c18RT func(*http.Request) (*http.Response, error)
+
+func (f c18RT) RoundTrip(r *http.Request) (*http.Response, error) { return f(r) }
+
+// a key database that knows nothing
+type c18KeyDB struct{}
+
+func (c18KeyDB) FetcherName() string { return "c18" }
+func (c18KeyDB) FetchKeys(ctx context.Context, reqs map[gmsl.PublicKeyLookupRequest]spec.Timestamp) (map[gmsl.PublicKeyLookupRequest]gmsl.PublicKeyLookupResult, error) {
+	return map[gmsl.PublicKeyLookupRequest]gmsl.PublicKeyLookupResult{}, nil
+}
+func (c18KeyDB) StoreKeys(ctx context.Context, results map[gmsl.PublicKeyLookupRequest]gmsl.PublicKeyLookupResult) error {
+	return nil
+}
+
+// scripted federation client for PerformJoin: both answers are raw JSON bodies as a remote sends them
+type c18JoinClient struct{ mj, sj []byte }
+
+type c18MakeJoin struct {
+	RoomVersion gmsl.RoomVersion `json:"room_version"`
+	JoinEvent   gmsl.ProtoEvent  `json:"event"`
+}
+
+func (m c18MakeJoin) GetJoinEvent() gmsl.ProtoEvent    { return m.JoinEvent }
+func (m c18MakeJoin) GetRoomVersion() gmsl.RoomVersion { return m.RoomVersion }
+
+func (f *c18JoinClient) MakeJoin(ctx context.Context, origin, s spec.ServerName, roomID, userID string) (gmsl.MakeJoinResponse, error) {
+	var r c18MakeJoin
+	if err := json.Unmarshal(f.mj, &r); err != nil {
+		return nil, err
+	}
+	return r, nil
+}
+
+func (f *c18JoinClient) SendJoin(ctx context.Context, origin, s spec.ServerName, event gmsl.PDU) (gmsl.SendJoinResponse, error) {
+	var r fclient.RespSendJoin
+	if err := json.Unmarshal(f.sj, &r); err != nil {
+		return nil, err
+	}
+	return &r, nil
 }
 
 // c18Ordered renders an object with its members in the given order (Go maps would sort them)
@@ -750,9 +832,47 @@ func genC18(c *Ctx) {
 			c.Count("http")
 		}
 	}
+	// well-known replies
+	for _, cc := range []string{"", "max-age", "max-age=", "max-age=5", "max-age=x", "=", "=5", "public", "public, max-age", "max-age=5, public", ",", ",,max-age", "max-age=5=6", "no-cache, max-age=99999999999999999999", " max-age = 7 ", "s-maxage=1,max-age"} {
+		for _, exp := range []string{"", "x", "Mon, 02 Jan 2006 15:04:05 GMT"} {
+			for _, cl := range []string{"", "5", "-1", "x", "99999999"} {
+				for _, body := range []string{`{"m.server":"a.example:443"}`, `{}`, ``, `null`, `{"m.server":5}`, `[`} {
+					if (cl != "" || exp != "") && body != `{"m.server":"a.example:443"}` {
+						continue
+					}
+					c.Run("C18.wellknown", Args("200", cc, exp, cl, body), "C18.nopanic", "", "well-known reply")
+					c.Count("wellknown")
+				}
+			}
+		}
+	}
+	for _, st := range []string{"404", "500", "301", "0"} {
+		c.Run("C18.wellknown", Args(st, "max-age", "", "", `{"m.server":"a"}`), "C18.nopanic", "", "well-known status")
+	}
+	// make_join / send_join answers of a remote
+	tmpl := func(extra string) string {
+		return `{"type":"m.room.member","room_id":"!room:remote.example","sender":"@me:local.example","state_key":"@me:local.example","content":{"membership":"join"},"depth":1` + extra + `}`
+	}
+	sjOK := `{"state":[],"auth_chain":[],"origin":"remote.example"}`
+	var mjs []string
+	for _, rv := range []string{``, `"room_version":"1",`, `"room_version":"10",`, `"room_version":"12",`, `"room_version":"org.matrix.msc4014",`, `"room_version":"999",`, `"room_version":5,`} {
+		for _, refs := range []string{``, `,"auth_events":[],"prev_events":[]`, `,"auth_events":null,"prev_events":null`, `,"auth_events":[[]],"prev_events":[[5]]`, `,"auth_events":["$a"],"prev_events":["$p"]`,
+			`,"auth_events":[["$a:x",{"sha256":"AAAA"}]],"prev_events":[["$p:x",{"sha256":"AAAA"}]]`, `,"auth_events":"x","prev_events":5`, `,"auth_events":[""],"prev_events":[null]`} {
+			mjs = append(mjs, `{`+rv+`"event":`+tmpl(refs)+`}`)
+		}
+		mjs = append(mjs, `{`+rv+`"event":{}}`, `{`+rv+`"event":null}`, `{`+rv+`"event":{"content":null,"type":"m.room.member"}}`, `{`+rv+`"event":{"content":"x"}}`)
+	}
+	mjs = append(mjs, `{}`, `null`, `[]`, `{"event":5}`)
+	for _, mj := range mjs {
+		for _, sj := range []string{sjOK, `{}`, `{"state":[{}],"auth_chain":[5],"event":{"type":"m.room.member"}}`, `{"state":null,"auth_chain":null,"event":null,"members_omitted":true,"servers_in_room":null}`} {
+			c.Run("C18.performjoin", Args(mj, sj), "C18.nopanic", "", "scripted make_join / send_join")
+			c.Count("performjoin")
+		}
+	}
 	// 3. byte-level
 	seeds := []string{`{"a":1,"b":[1,2,{"c":"é😀"}],"signatures":{"srv":{"ed25519:1":"AAAA"}},"unsigned":{}}`,
 		`{"server_name":"srv","valid_until_ts":1,"verify_keys":{"ed25519:1":{"key":"AAAA"}},"old_verify_keys":{"ed25519:0":{"key":"AA","expired_ts":1}},"signatures":{"srv":{"ed25519:1":"AAAA"}}}`,
+		`{"server_name":"srv","valid_until_ts":9999999999999,"verify_keys":{"ed25519":{"key":"AAAA"},"":{"key":"AAAA"},"curve25519":{"key":"AAAA"},":":{"key":""},"ed25519:":{"key":null}},"old_verify_keys":{"x":{"key":"AA","expired_ts":1},"":{}},"signatures":{"srv":{"ed25519":"AAAA","":"AAAA"}}}`,
 		`X-Matrix origin="a.example",key="ed25519:1",sig="AAAA",destination="b.example"`, `@alice:example.org`, `!room:example.org`, `example.org:8448`, `[::1]:8448`,
 		`{"pdus":[{"type":"m.room.message"}],"edus":[],"origin":"x","origin_server_ts":1}`, `{"state":[],"auth_chain":[],"event":{},"origin":"x","members_omitted":true,"servers_in_room":["x"]}`,
 		`[200,{"event":{}}]`, `"-0"`, `-`, `"\u`, `"\ud800`, `"\ud800\u`, `"\`, `-0`, `{"a":-0.5}`, `{"_room_version":"10","_event_id":"$x","type":"m.room.message"}`, `MDAxY2xvY2F0aW9u`, `AAAA`}
